@@ -111,8 +111,96 @@ fn frame_range(buf: &[u8], mf: &MessageFrame) -> (usize, usize) {
     (a, a + mf.frame_len())
 }
 
+/// Noisy stretches: many complete wrong-checksum candidates in a row (hundreds of damaged short frames, dozens of
+/// damaged kilobyte frames, long 0xD3 runs, tens of KiB of random or preamble-rich noise) between valid frames.
+/// Returns (stream, label). `size` selects among the sizes of a kind.
+pub fn noisy_stream(rng: &mut crate::rng::Rng, kind: usize, size: usize) -> (Vec<u8>, &'static str) {
+    let mut buf: Vec<u8> = Vec::new();
+    for _ in 0..rng.below(3) {
+        let l = rng.below(40) as usize;
+        buf.extend(crate::pool::random_frame(rng, l, false));
+    }
+    let label;
+    match kind % 6 {
+        0 => {
+            label = "noisy/hundreds-of-damaged-short-frames";
+            let n = [255usize, 256, 257, 300, 600, 1200][size % 6];
+            for _ in 0..n {
+                let l = rng.below(9) as usize;
+                let mut f = crate::pool::random_frame(rng, l, false);
+                let k = f.len() - 1 - rng.below(3) as usize;
+                f[k] ^= 1 << rng.below(8);
+                buf.extend(f);
+            }
+        }
+        1 => {
+            label = "noisy/dozens-of-damaged-kilobyte-frames";
+            let n = [64usize, 65, 66, 67, 70, 140][size % 6];
+            for _ in 0..n {
+                let l = 990 + rng.below(34) as usize;
+                let mut f = crate::pool::random_frame(rng, l, false);
+                let k = 3 + rng.below((f.len() - 3) as u64) as usize;
+                f[k] ^= 1 << rng.below(8);
+                buf.extend(f);
+            }
+        }
+        2 => {
+            label = "noisy/long-0xD3-run";
+            let n = [1030usize, 1050, 1100, 1300, 2500, 66_000][size % 6];
+            buf.extend(std::iter::repeat(0xD3u8).take(n));
+            // the run ends in something that is not an incomplete candidate: enough filler for the last candidates
+            let fill = rng.bytes(1100);
+            buf.extend(fill.into_iter().map(|b| if b == 0xD3 { 0x3D } else { b }));
+        }
+        3 => {
+            label = "noisy/random-noise";
+            let n = [33_000usize, 66_000, 70_000, 100_000, 140_000, 200_000][size % 6];
+            let g = rng.bytes(n);
+            buf.extend(g);
+        }
+        4 => {
+            label = "noisy/preamble-rich-noise";
+            let n = [8_000usize, 20_000, 33_000, 66_000, 80_000, 140_000][size % 6];
+            let mut g = rng.bytes(n);
+            for b in g.iter_mut() {
+                if rng.below(4) == 0 {
+                    *b = 0xD3;
+                }
+            }
+            buf.extend(g);
+        }
+        _ => {
+            label = "noisy/dense-empty-candidates";
+            let n = [255usize, 256, 257, 400, 2000, 12_000][size % 6];
+            for _ in 0..n {
+                // a complete L=0 candidate with a wrong checksum
+                let rb = rng_bool(rng);
+                let mut f = crate::pool::random_frame(rng, 0, rb);
+                f[3 + rng.below(3) as usize] ^= 1 << rng.below(8);
+                buf.extend(f);
+            }
+        }
+    }
+    for _ in 0..1 + rng.below(3) {
+        let l = rng.below(60) as usize;
+        let rb = rng_bool(rng);
+        buf.extend(crate::pool::random_frame(rng, l, rb));
+    }
+    if rng.below(3) == 0 {
+        let l = 10 + rng.below(50) as usize;
+        let f = crate::pool::random_frame(rng, l, false);
+        let keep = 1 + rng.below((f.len() - 1) as u64) as usize;
+        buf.extend_from_slice(&f[..keep]);
+    }
+    (buf, label)
+}
+
 /// C05 oracle on a raw buffer
 pub fn oracle_scan(buf: &[u8]) -> Result<(), (String, String)> {
+    oracle_scan_with(buf, true)
+}
+/// `adaptors` = false: scanner, dead-byte invariant and plain iteration only (for very long noisy streams)
+pub fn oracle_scan_with(buf: &[u8], adaptors: bool) -> Result<(), (String, String)> {
     let (c, f) = next_msg_frame(buf);
     let (rc, rf) = ref_scan(buf);
     if c > buf.len() {
@@ -162,6 +250,9 @@ pub fn oracle_scan(buf: &[u8]) -> Result<(), (String, String)> {
             format!("iterator frames={:?} consumed={}; reference frames={:?} consumed={}", frames, it.consumed(), rframes, rtotal),
         ));
     }
+    if !adaptors {
+        return Ok(());
+    }
     // the other Iterator entry points (nth / skip / step_by / count / last are built on next(); an override must agree)
     {
         let n = rframes.len();
@@ -202,6 +293,57 @@ pub fn oracle_scan(buf: &[u8]) -> Result<(), (String, String)> {
         let (lo, hi) = (&mut it7).size_hint();
         if lo > n || hi.map(|h| h < n).unwrap_or(false) {
             return Err(("c05:iterator-size_hint".into(), format!("size_hint() = ({}, {:?}) excludes the actual number of frames {}", lo, hi, n)));
+        }
+    }
+    // fold / try_fold based consumers (for_each, find, position, all), take, peekable, enumerate+filter: an override of
+    // fold, try_fold, advance_by-like helpers or a fused flag must agree with next()
+    {
+        let n = rframes.len();
+        let mut it8 = MsgFrameIter::new(buf);
+        let folded: Vec<(usize, usize)> = (&mut it8).fold(Vec::new(), |mut acc, m| {
+            acc.push(frame_range(buf, &m));
+            acc
+        });
+        if folded != rframes || it8.consumed() != it.consumed() {
+            return Err(("c05:iterator-fold".into(), format!("fold() visits {:?} (consumed {}), reference {:?} (consumed {})", folded, it8.consumed(), rframes, it.consumed())));
+        }
+        let mut it9 = MsgFrameIter::new(buf);
+        let mut seen: Vec<(usize, usize)> = Vec::new();
+        (&mut it9).for_each(|m| seen.push(frame_range(buf, &m)));
+        if seen != rframes {
+            return Err(("c05:iterator-for_each".into(), format!("for_each() visits {:?}, reference {:?}", seen, rframes)));
+        }
+        if n > 0 {
+            let k = n / 2;
+            let mut it10 = MsgFrameIter::new(buf);
+            let found = (&mut it10).find(|m| frame_range(buf, m) == rframes[k]).map(|m| frame_range(buf, &m));
+            let next_after = (&mut it10).next().map(|m| frame_range(buf, &m));
+            if found != Some(rframes[k]) || next_after != rframes.get(k + 1).copied() {
+                return Err(("c05:iterator-find".into(), format!("find() of frame {} returned {:?}, then next() {:?}", k, found, next_after)));
+            }
+            let mut it11 = MsgFrameIter::new(buf);
+            let pos = (&mut it11).position(|m| frame_range(buf, &m) == rframes[k]);
+            if pos != Some(k) {
+                return Err(("c05:iterator-position".into(), format!("position() of frame {} returned {:?}", k, pos)));
+            }
+            let mut it12 = MsgFrameIter::new(buf);
+            let taken: Vec<(usize, usize)> = (&mut it12).take(k + 1).map(|m| frame_range(buf, &m)).collect();
+            let rest: Vec<(usize, usize)> = (&mut it12).map(|m| frame_range(buf, &m)).collect();
+            if taken != rframes[..k + 1] || rest != rframes[k + 1..] {
+                return Err(("c05:iterator-take".into(), format!("take({}) yields {:?}, then the rest {:?}", k + 1, taken, rest)));
+            }
+            let mut it13 = MsgFrameIter::new(buf);
+            let mut pk = (&mut it13).peekable();
+            let peeked = pk.peek().map(|m| frame_range(buf, m));
+            let again: Vec<(usize, usize)> = pk.map(|m| frame_range(buf, &m)).collect();
+            if peeked != Some(rframes[0]) || again != rframes {
+                return Err(("c05:iterator-peekable".into(), format!("peek() gives {:?} and the peeked iterator then yields {:?}", peeked, again)));
+            }
+        }
+        let mut it14 = MsgFrameIter::new(buf);
+        let odd: Vec<(usize, usize)> = (&mut it14).enumerate().filter(|(i, _)| i % 2 == 1).map(|(_, m)| frame_range(buf, &m)).collect();
+        if odd != rframes.iter().skip(1).step_by(2).copied().collect::<Vec<_>>() {
+            return Err(("c05:iterator-enumerate-filter".into(), format!("enumerate().filter(odd) yields {:?}", odd)));
         }
     }
     // further calls after the end keep returning None and do not move backwards
@@ -376,13 +518,13 @@ pub fn run(ctx: &Ctx, replay: Option<&J>, chunked: bool) -> CheckResult {
     let rule = if !chunked {
         "proptest-generated buffers of up to 6 segments {valid frame (payload 0..=1023, random reserved bits), garbage, lone 0xD3, \
          header announcing a long body, frame with one flipped bit, truncated frame, frame nested in the payload of a valid/invalid outer \
-         candidate, D3-rich bytes}, plus an enumeration of all 65536 (reserved bits, length) header patterns as valid frames inside buffers longer than a maximum-length frame, and streams of 66-200 KB (total lengths around 2^16 and 2^17); oracle: next_msg_frame == reference scanner (consumed, presence, exact byte range), consumed<=len, every \
-         skipped 0xD3 is a complete wrong-CRC candidate, MsgFrameIter yields the reference frame list/consumed total and terminates, and nth/skip/step_by/count/last/size_hint agree with it; frames whose checksum is a special value (0x000000, 0xFFFFFF, 0xD30000, ...) are included. \
+         candidate, D3-rich bytes}, plus an enumeration of all 65536 (reserved bits, length) header patterns as valid frames inside buffers longer than a maximum-length frame, streams of 66-200 KB (total lengths around 2^16 and 2^17), and noisy stretches between valid frames (255..1200 damaged short frames, 64..140 damaged kilobyte frames, 0xD3 runs of 1030..66000 bytes, 33-200 KB of random and preamble-rich noise, 255..12000 empty candidates with a wrong checksum); oracle: next_msg_frame == reference scanner (consumed, presence, exact byte range), consumed<=len, every \
+         skipped 0xD3 is a complete wrong-CRC candidate, MsgFrameIter yields the reference frame list/consumed total and terminates, and nth/skip/step_by/count/last/size_hint/fold/for_each/find/position/take/peekable/enumerate+filter agree with it; frames whose checksum is a special value (0x000000, 0xFFFFFF, 0xD30000, ...) are included. \
          non-trivial = >=2 segment kinds and a 0xD3 before the delivered frame or an incomplete candidate; distinct = hash of the buffer"
             .to_string()
     } else {
         "C05 streams x chunk schedules {one-byte chunks, random cut positions incl. duplicates (empty chunks), cuts forced at \
-         preamble/length/payload/checksum offsets of 0xD3 candidates}, plus streams of 66-150 KB fed in small chunks, in 64 KiB chunks and at once; oracle (model-based history): two caller loops (append chunk; either call next_msg_frame until \
+         preamble/length/payload/checksum offsets of 0xD3 candidates}, plus streams of 66-150 KB fed in small chunks, in 64 KiB chunks and at once, and noisy stretches (as in C05: hundreds of rejected candidates, more than 64 KiB of rejected candidate bytes) between valid frames fed in random pieces, 4 KiB pieces and with cuts at the first valid frame after the noise; oracle (model-based history): two caller loops (append chunk; either call next_msg_frame until \
          no frame or run a MsgFrameIter and use consumed(); drop the consumed bytes) gives the same delivered frames (bytes, message number, decoded message) and total consumed as one-shot scanning and as the reference model. \
          non-trivial = >=1 cut strictly inside a frame that is delivered; distinct = hash of (stream, cuts)"
             .to_string()
@@ -582,6 +724,37 @@ pub fn run(ctx: &Ctx, replay: Option<&J>, chunked: bool) -> CheckResult {
             }
         }
         ev.class_n("long-streams(>64KiB)", ctx.n(12, 200));
+        // noisy stretches (hundreds of rejected candidates / more than 64 KiB of rejected candidate bytes in one call)
+        let reps = ctx.n(1, 6) as usize;
+        let jobs: Vec<(usize, usize, usize)> = (0..6).flat_map(|k| (0..6).flat_map(move |z| (0..reps).map(move |r| (k, z, r)))).filter(|(k, z, _)| ctx.tier == Tier::Thorough || !(*k == 2 && *z == 5)).collect();
+        let noisy: Vec<(Evidence, Vec<Violation>)> = jobs
+            .par_iter()
+            .map(|(k, z, r)| {
+                let mut ev = Evidence::new();
+                ev.sample_cap = 0;
+                let mut vs = Vec::new();
+                let mut rng = ctx.rng("c05-noisy", (*k * 100 + *z * 10 + *r) as u64);
+                let (buf, label) = noisy_stream(&mut rng, *k, *z);
+                ev.evaluations += 1;
+                match catch(|| oracle_scan_with(&buf, buf.len() < 20_000)) {
+                    Ok(Ok(())) => {
+                        ev.nontrivial_hash(hash_u64s(&[*k as u64, *z as u64, *r as u64, buf.len() as u64]));
+                        ev.class(label);
+                    }
+                    Ok(Err((sig, msg))) => vs.push(Violation { property: "C05".into(), signature: sig, message: format!("{} ({} bytes): {}", label, buf.len(), msg), case: json!({"kind":"stream","bytes":hex(&buf),"segments":[label]}) }),
+                    Err(p) => vs.push(Violation { property: "C05".into(), signature: panic_signature(&p), message: format!("{}: panic: {}", label, p), case: json!({"kind":"stream","bytes":hex(&buf),"segments":[label]}) }),
+                }
+                (ev, vs)
+            })
+            .collect();
+        for (e, v) in noisy {
+            ev.merge(e);
+            for x in v {
+                if !vs.iter().any(|y: &Violation| y.signature == x.signature) {
+                    vs.push(x);
+                }
+            }
+        }
         return CheckResult { evidence: ev, rule, assumptions, violations: vs };
     }
     let cases = ctx.n(1_000_000, 150_000_000);
@@ -667,6 +840,74 @@ pub fn run(ctx: &Ctx, replay: Option<&J>, chunked: bool) -> CheckResult {
             Err((sig, msg)) => {
                 if !vs.iter().any(|y: &Violation| y.signature == sig) {
                     vs.push(Violation { property: "C06".into(), signature: sig, message: format!("stream of {} bytes, {} cuts: {}", stream.len(), cuts.len(), msg), case: json!({"kind":"chunked-stream","bytes":hex(&stream),"cuts":cuts}) });
+                }
+            }
+        }
+    }
+    // noisy stretches fed in one piece, in a few random pieces, in 4 KiB pieces and with a cut just before the valid
+    // frames that follow the noise
+    {
+        use rayon::prelude::*;
+        let reps = ctx.n(1, 4) as usize;
+        let jobs: Vec<(usize, usize, usize)> = (0..6).flat_map(|k| (0..6).flat_map(move |z| (0..reps).map(move |r| (k, z, r)))).filter(|(k, z, _)| ctx.tier == Tier::Thorough || !(*k == 2 && *z == 5)).collect();
+        let noisy: Vec<(Evidence, Vec<Violation>)> = jobs
+            .par_iter()
+            .map(|(k, z, r)| {
+                let mut ev = Evidence::new();
+                ev.sample_cap = 0;
+                let mut vs = Vec::new();
+                let mut rng = ctx.rng("c06-noisy", (*k * 100 + *z * 10 + *r) as u64);
+                let (stream, label) = noisy_stream(&mut rng, *k, *z);
+                let (fr, _) = ref_scan_all(&stream);
+                for sched in 0..3 {
+                    let mut cuts: Vec<usize> = Vec::new();
+                    match sched {
+                        0 => {
+                            for _ in 0..1 + rng.below(4) {
+                                cuts.push(rng.below(stream.len() as u64 + 1) as usize);
+                            }
+                        }
+                        1 => {
+                            let mut c = 4096;
+                            while c < stream.len() {
+                                cuts.push(c);
+                                c += 4096;
+                            }
+                        }
+                        _ => {
+                            // at, just before and just inside the first valid frame after the noise
+                            if let Some((a, _)) = fr.iter().find(|(a, _)| *a > stream.len() / 4) {
+                                cuts.extend([a.saturating_sub(1), *a, (*a + 1).min(stream.len())]);
+                            }
+                        }
+                    }
+                    cuts.sort();
+                    ev.evaluations += 1;
+                    match catch(|| oracle_chunks(&stream, &cuts)) {
+                        Ok(Ok(())) => {
+                            ev.nontrivial_hash(hash_u64s(&[*k as u64, *z as u64, *r as u64, sched as u64, stream.len() as u64]));
+                            ev.class(label);
+                        }
+                        Ok(Err((sig, msg))) => {
+                            if vs.is_empty() {
+                                vs.push(Violation { property: "C06".into(), signature: sig, message: format!("{} ({} bytes, {} cuts): {}", label, stream.len(), cuts.len(), msg), case: json!({"kind":"chunked-stream","bytes":hex(&stream),"cuts":cuts}) });
+                            }
+                        }
+                        Err(p) => {
+                            if vs.is_empty() {
+                                vs.push(Violation { property: "C06".into(), signature: panic_signature(&p), message: format!("{}: panic: {}", label, p), case: json!({"kind":"chunked-stream","bytes":hex(&stream),"cuts":cuts}) });
+                            }
+                        }
+                    }
+                }
+                (ev, vs)
+            })
+            .collect();
+        for (e, v) in noisy {
+            ev.merge(e);
+            for x in v {
+                if !vs.iter().any(|y: &Violation| y.signature == x.signature) {
+                    vs.push(x);
                 }
             }
         }
